@@ -623,9 +623,11 @@ def records_with_array_fields_in_files():
             out.append(Case(J(L), limits=dict(steps=10000), meta=dict(gen='records-with-array-fields-in-files', sample=False)))
     return out
 
-LEX_FAILS = ['1 + $', '7 - "abc', '"n=" & @', 'FALSE AND #', '"bad \\q escape"', "'ab'", "'", 'x == 1', 'OUTPUT("x")', '"open \\', '12 + "ab\\', 'LENGTH("abc" & "de', '3 * (4 + ~)', 'y <- "p" & "q']
+LEX_FAILS = ['1 + $', '7 - "abc', '"n=" & @', 'FALSE AND #', '"bad \\q escape"', "'ab'", "'", 'x == 1', 'OUTPUT("x")', '"open \\', '12 + "ab\\', 'LENGTH("abc" & "de', '3 * (4 + ~)', 'y <- "p" & "q',
+             'x <- 10 / #', 'x <- 10 - #', '3 * $', '1 = @', '2 / "unterminated', '(#', '12/#', '1/2/#', 'x <- 1/2/2003 / #']
 LEX_PROBES = ['2 * 3', '"hello"', 'LENGTH("hello")', "'c'", '1 / 0', '1 + 2', 'IS_NUM("42")', 'MID("abcdef", 2, 3)', 'TO_UPPER("abc")', 'STR_TO_NUM("7.5")', 'LEFT("abc", 1) & RIGHT("abc", 2)',
-              'TRUE AND FALSE', '12', 'x <- 4', 'x', 'OUTPUT "out ", 1']
+              'TRUE AND FALSE', '12', 'x <- 4', 'x', 'OUTPUT "out ", 1',
+              '1/3/2021 = 1/3/2021', '31/2/2021', '29/2/2020 < 1/3/2020', '1/2/2003', 'DAY(5/6/2007)', '-3', '(1 + 1)', '.5', "'q' & \"r\""]
 def lexer_failure_then_probe(rng):
     """REPL: an entry rejected by the lexer (after some tokens, inside a string or character literal, at an escape), then entries of every token
     kind: nothing of the rejected entry may survive into the next one"""
@@ -707,34 +709,341 @@ def nodes_evaluated_twice(rng):
     out.append(Case(J(L2), limits=dict(steps=20000), meta=dict(gen='nodes-evaluated-twice', sample=False)))
     return out
 
+
+# ------------------------------------------------------------------ round f
+def reentrant_nodes():
+    """every node class with two or more operand positions -- operators, comparisons, built-in and user calls, index lists, the OUTPUT list,
+    loop headers, the CALL statement -- entered again through one of its own operands: a recursive function whose recursive call stands in
+    one operand while another operand depends on the level (depth up to 4), in both orders.  A node may keep nothing between the evaluation of
+    its operands that a nested evaluation of the same node can overwrite"""
+    exprs = ['{N} + {R}', '{R} + {N}', '{N} - {R}', '{R} - {N}', '{N} * 7 + {R}', '({N} + 100) DIV ({R} MOD 9 + 1)', '({R} + 100) MOD ({N} + 1)', '{N} * {R} MOD 1000',
+             'LENGTH(LEFT("abcdefghijklmnopqrstuvwxyz", {R} MOD 5 + {N}))', 'LENGTH(MID("abcdefghijklmnopqrstuvwxyz", {N}, {R} MOD 7 + 1))', 'LENGTH(RIGHT("abcdefghij", {N})) + {R}',
+             'LENGTH(MID("abcdefghijklmnopqrstuvwxyz", {R} MOD 7 + 1, {N}))', 'ASC(MID("abcdefghij", {N}, 1)) + {R} MOD 100', 'Pick({N}, {R} MOD 1000)', 'Pick({R} MOD 1000, {N})',
+             'Pick3({N}, {R} MOD 100, {N} + 1)', 'INT(({N} + 0.5) * 2) + {R}', 'INT({R} / 2 + {N})', 'tab[{N}, {R} MOD 3 + 1]', 'tab[{R} MOD 4 + 1, {N} MOD 3 + 1]',
+             'INT(STR_TO_NUM(NUM_TO_STR({N}) & NUM_TO_STR({R} MOD 10)))', 'LENGTH(NUM_TO_STR({R}) & NUM_TO_STR({N} * 100))', '-({N} + {R})']
+    conds = ['{N} > {R}', '{R} > {N}', '{N} = {R}', '{R} = {N}', '{N} <> {R}', '{N} <= {R}', '{R} >= {N}', '{N} < {R}', '({N} > 1) AND ({R} >= 0)', '({R} >= 0) AND ({N} > 1)',
+             '({N} > 2) OR ({R} < 0)', 'NOT ({R} < {N})', 'LEFT("abcdef", {N}) = LEFT("abcdef", ({R} + 50) MOD 5)', "MID(\"abcdef\", {N}, 1) = MID(\"abcdef\", ({R} + 50) MOD 5 + 1, 1)"]
+    pre = ['DECLARE tab : ARRAY[1:4, 1:3] OF INTEGER', 'FOR i <- 1 TO 4', '  FOR j <- 1 TO 3', '    tab[i, j] <- i * 10 + j', '  NEXT j', 'NEXT i',
+           'FUNCTION Pick(a : INTEGER, b : INTEGER) RETURNS INTEGER', '  RETURN a * 1000 + b', 'ENDFUNCTION',
+           'FUNCTION Pick3(a : INTEGER, b : INTEGER, c : INTEGER) RETURNS INTEGER', '  RETURN a * 10000 + b * 100 + c', 'ENDFUNCTION']
+    out = []
+    def prog(fns):
+        L = list(pre); calls = []
+        for k, body in enumerate(fns):
+            nm = 'R%d' % k
+            L += ['FUNCTION %s(n : INTEGER) RETURNS INTEGER' % nm, '  IF n = 0 THEN', '    RETURN 1', '  ENDIF'] + [b.replace('{N}', 'n').replace('{R}', '%s(n - 1)' % nm) for b in body] + ['ENDFUNCTION']
+            calls.append('OUTPUT "%s ", %s(1), " ", %s(2), " ", %s(3), " ", %s(4)' % (nm, nm, nm, nm, nm))
+        return Case(J(L + calls), limits=dict(steps=60000), meta=dict(gen='reentrant-nodes', sample=False))
+    for i in range(0, len(exprs), 6):
+        out.append(prog([['  RETURN ' + e] for e in exprs[i:i + 6]]))
+    for i in range(0, len(conds), 5):
+        out.append(prog([['  IF ' + c + ' THEN', '    RETURN n', '  ENDIF', '  RETURN 0 - n'] for c in conds[i:i + 5]]))
+    stmts = [['  OUTPUT "<", n, " ", {R}, " ", n, ">"', '  RETURN n'],
+             ['  DECLARE t : INTEGER', '  t <- 0', '  FOR q <- n TO {R} MOD 3 + n', '    t <- t + q', '  NEXT q', '  RETURN t'],
+             ['  DECLARE t : INTEGER', '  t <- 0', '  FOR q <- 1 TO 6 STEP {R} MOD 2 + n', '    t <- t + q', '  NEXT q', '  RETURN t'],
+             ['  DECLARE t : INTEGER', '  t <- 0', '  WHILE t < {R} MOD 3 + n', '    t <- t + 1', '  ENDWHILE', '  RETURN t'],
+             ['  DECLARE t : INTEGER', '  t <- 0', '  REPEAT', '    t <- t + 1', '  UNTIL t >= {R} MOD 3 + n', '  RETURN t'],
+             ['  DECLARE t : INTEGER', '  t <- {R} MOD 3 + n', '  CASE OF t', '    ({R} + 50) MOD 3 + 1 : t <- 10 + n', '    2 : t <- 20 + n', '    3 TO ({R} + 50) MOD 2 + 4 : t <- 30 + n', '    OTHERWISE : t <- 40 + n', '  ENDCASE', '  RETURN t'],
+             ['  DECLARE loc : ARRAY[1:6] OF INTEGER', '  loc[n] <- {R} MOD 50', '  loc[{R} MOD 2 + 5] <- n', '  RETURN loc[n] * 10 + loc[5] + loc[6]'],
+             ['  DECLARE t : INTEGER', '  t <- n * 100', '  t <- t + {R} MOD 50', '  RETURN t']]
+    for i in range(0, len(stmts), 2):
+        out.append(prog(stmts[i:i + 2]))
+    # strings and reals
+    L = ['FUNCTION S(n : INTEGER) RETURNS STRING', '  IF n = 0 THEN', '    RETURN "."', '  ENDIF', '  RETURN NUM_TO_STR(n) & S(n - 1)', 'ENDFUNCTION',
+         'FUNCTION T(n : INTEGER) RETURNS STRING', '  IF n = 0 THEN', '    RETURN "."', '  ENDIF', '  RETURN T(n - 1) & NUM_TO_STR(n)', 'ENDFUNCTION',
+         'FUNCTION X(n : INTEGER) RETURNS REAL', '  IF n = 0 THEN', '    RETURN 0.5', '  ENDIF', '  RETURN n / 4 + X(n - 1)', 'ENDFUNCTION',
+         'FUNCTION Y(n : INTEGER) RETURNS REAL', '  IF n = 0 THEN', '    RETURN 0.5', '  ENDIF', '  RETURN X(n - 1) * n - Y(n - 1)', 'ENDFUNCTION',
+         'FUNCTION U(n : INTEGER) RETURNS STRING', '  IF n = 0 THEN', '    RETURN ""', '  ENDIF', '  RETURN TO_UPPER(LEFT("abcdefghij", LENGTH(U(n - 1)) + 1))', 'ENDFUNCTION',
+         'OUTPUT S(4), " ", T(4), " ", X(4), " ", Y(4), " ", U(4), " ", S(2), " ", U(2)']
+    out.append(Case(J(L), limits=dict(steps=60000), meta=dict(gen='reentrant-nodes', sample=False)))
+    # a CALL statement entered again while its own arguments are being evaluated, BYVAL and BYREF parameters
+    for byref in (False, True):
+        L = ['DECLARE acc : STRING', 'acc <- ""',
+             'PROCEDURE Walk(BYVAL n : INTEGER, %s tag : STRING)' % ('BYREF' if byref else 'BYVAL'), '  OUTPUT "Walk ", n, " ", tag',
+             '  IF n > 0 THEN'] + (['    tag <- tag & "a"', '    CALL Walk(Step(n), tag)'] if byref else ['    CALL Walk(Step(n), tag & "a")']) + ['  ENDIF', '  OUTPUT "done ", n, " ", tag', 'ENDPROCEDURE',
+             'FUNCTION Step(n : INTEGER) RETURNS INTEGER', '  IF n > 1 THEN'] + (['    acc <- acc & "b"', '    CALL Walk(n - 2, acc)'] if byref else ['    CALL Walk(n - 2, "b")']) + ['  ENDIF', '  RETURN n - 1', 'ENDFUNCTION',
+             'DECLARE start : STRING', 'start <- "x"', 'CALL Walk(3, start)', 'OUTPUT start, " ", acc']
+        out.append(Case(J(L), limits=dict(steps=60000), meta=dict(gen='reentrant-call', sample=False)))
+    return out
+
+def creation_fails_then_probe():
+    """REPL sessions, with and without --pedantic: a statement that would bring a name into being fails part-way (array of a record type whose
+    body fails, record of such a type, constant or implicit variable with a failing right-hand side, INPUT / assignment / FOR on an undeclared
+    name under --pedantic, two names of which the second fails); the name is then probed (echo, assignment, index, redeclaration), the cause is
+    repaired and the declaration repeated"""
+    out = []
+    bad = ['TYPE Node', '  DECLARE value : INTEGER', '  DECLARE next : NodePtr', 'ENDTYPE', '']
+    fix = ['TYPE NodePtr = ^Node']
+    scen = {
+        'array-of-bad': (bad, ['DECLARE a : ARRAY[1:2] OF Node'], ['a[1].value', 'a[1].value <- 3', 'a'], fix, ['DECLARE a : ARRAY[1:2] OF Node', 'a[1].value <- 7', 'a[2].value <- a[1].value + 1', 'a[2].value']),
+        'record-of-bad': (bad, ['DECLARE a : Node'], ['a.value', 'a.value <- 3'], fix, ['DECLARE a : Node', 'a.value <- 7', 'a.value']),
+        'two-names': (bad, ['DECLARE ok, a : Node'], ['ok.value', 'a.value'], fix, ['DECLARE a : Node', 'DECLARE ok : Node', 'a.value <- 7', 'a.value']),
+        'array-two-names': (bad, ['DECLARE p, a : ARRAY[1:2] OF Node'], ['p[1].value', 'a[1].value'], fix, ['DECLARE a : ARRAY[1:2] OF Node', 'DECLARE p : ARRAY[1:2] OF Node', 'a[2].value <- 7', 'a[2].value']),
+        'constant-rhs': ([], ['CONSTANT a = 1 DIV 0'], ['a', 'a <- 3'], [], ['CONSTANT a = 4', 'a', 'a <- 5', 'a']),
+        'implicit-rhs': ([], ['a <- 1 DIV 0'], ['a', 'a + 1'], [], ['DECLARE a : STRING', 'a <- "s"', 'a']),
+        'implicit-rhs-undefined': ([], ['a <- nowhere + 1'], ['a', 'nowhere'], [], ['DECLARE a : REAL', 'a <- 2', 'a']),
+        'input-undeclared': ([], ['INPUT a', 'typed line'], ['a', 'a <- "bob"', 'a & "!"'], [], ['DECLARE a : INTEGER', 'a <- 4', 'a']),
+        'assign-undeclared': ([], ['a <- 3'], ['a', 'a <- a + 1', 'a'], [], ['DECLARE a : STRING', 'a <- "s"', 'a']),
+        'for-undeclared': ([], ['FOR a <- 1 TO 2', '  OUTPUT a', 'NEXT a', ''], ['a', 'a <- 9', 'a'], [], ['DECLARE a : STRING', 'a <- "s"', 'a']),
+        'for-bad-bound': ([], ['FOR a <- 1 TO "x"', '  OUTPUT a', 'NEXT a', ''], ['a', 'a <- 9', 'a'], [], ['DECLARE a : STRING', 'a <- "s"', 'a']),
+        'bad-bounds': ([], ['DECLARE a : ARRAY[5:1] OF INTEGER'], ['a[1]', 'a[5] <- 2'], [], ['DECLARE a : ARRAY[1:5] OF INTEGER', 'a[5] <- 2', 'a[5]']),
+        'bound-fails': ([], ['DECLARE a : ARRAY[1:1 DIV 0] OF INTEGER'], ['a[1]', 'a[1] <- 2'], [], ['DECLARE a : ARRAY[1:2] OF INTEGER', 'a[1] <- 2', 'a[1]']),
+        'unknown-type': ([], ['DECLARE a : Missing'], ['a', 'a <- 2', 'a'], [], ['DECLARE a : INTEGER', 'a']),
+        'readfile-undeclared': ([], ['READFILE "in.txt", a'], ['a', 'a & "!"'], [], ['OPENFILE "in.txt" FOR READ', 'READFILE "in.txt", a', 'a']),
+    }
+    for name, (pre, stmt, probes, repair, after) in scen.items():
+        ent = pre + ['"start"'] + stmt + probes + repair + after + ['"end"', '1 + 1']
+        for ped in ('', '-p'):
+            out.append(Case(mode='repl', pedantic=ped, stdin=J(ent), files={'in.txt': b'first\nsecond\n'}, limits=dict(steps=20000), meta=dict(gen='creation-fails-then-probe', sample=False)))
+        # the same inside a procedure that is called twice
+        body = [l for l in stmt if l != '' and l != 'typed line']
+        L = [l for l in pre if l != ''] + ['PROCEDURE Try()'] + ['  ' + l for l in body] + ['  OUTPUT "created"'] + ['ENDPROCEDURE', 'CALL Try()']
+        out.append(Case(J(L), stdin=b'typed line\n', files={'in.txt': b'first\nsecond\n'}, limits=dict(steps=20000), meta=dict(gen='creation-fails-in-call', sample=False)))
+    return out
+
+ERR_KINDS = {
+    'div-zero': 'RETURN 10 DIV (n - n)', 'array-direct-return': 'RETURN Scores', 'array-direct-output': 'OUTPUT Scores', 'undefined': 'RETURN nowhere + n', 'bad-index': 'RETURN Scores[n + 40]',
+    'type-mismatch': 'RETURN n + "s"', 'bad-call': 'RETURN Leaf(n, n)', 'string-range': 'RETURN LENGTH(MID("abc", 5, n))', 'assign-mismatch': 'Total <- "s"', 'array-direct-arith': 'RETURN Scores + 1',
+    'array-direct-assign-from': 'Total <- Scores', 'condition-type': 'IF n THEN\n    RETURN 1\n  ENDIF',
+}
+def errors_below_statements():
+    """every kind of run-time fault raised one to three calls below every kind of statement that can hold a call (assignment, whole-array
+    assignment on the line before, OUTPUT, argument of CALL, condition, index, bound, RETURN): the traceback names the failing line and every
+    activation between it and the program"""
+    carriers = {'assign': ['t <- Top(k)'], 'output': ['OUTPUT Top(k)'], 'arg': ['CALL Show(Top(k))'], 'if': ['IF Top(k) > 0 THEN', '  OUTPUT "pos"', 'ENDIF'],
+                'index-store': ['Scores[Top(k)] <- 1'], 'assign-after-array-copy': ['Copy <- Scores', 't <- Top(k)'], 'for-bound': ['FOR q <- 1 TO Top(k)', '  OUTPUT q', 'NEXT q'],
+                'while': ['WHILE Top(k) > 0', '  OUTPUT "loop"', 'ENDWHILE'], 'concat': ['OUTPUT "v" & Top(k)'], 'case': ['CASE OF Top(k)', '  1 : OUTPUT "one"', 'ENDCASE']}
+    out = []
+    for ek, fault in ERR_KINDS.items():
+        for depth in (1, 2, 3):
+            for ck, carrier in carriers.items():
+                if depth == 3 and ck not in ('assign', 'output', 'arg'):
+                    continue
+                L = ['DECLARE Scores : ARRAY[1:3] OF INTEGER', 'DECLARE Copy : ARRAY[1:3] OF INTEGER', 'DECLARE Total : INTEGER',
+                     'FUNCTION Leaf(n : INTEGER) RETURNS INTEGER', '  OUTPUT "leaf ", n'] + ['  ' + l if not l.startswith(' ') else l for l in fault.split('\n')] + ['  RETURN 0', 'ENDFUNCTION']
+                prev = 'Leaf'
+                for d in range(depth - 1):
+                    nm = 'Mid%d' % d
+                    L += ['FUNCTION %s(n : INTEGER) RETURNS INTEGER' % nm, '  DECLARE r : INTEGER', '  r <- %s(n)' % prev, '  RETURN r + 1', 'ENDFUNCTION']; prev = nm
+                L += ['FUNCTION Top(n : INTEGER) RETURNS INTEGER', '  RETURN %s(n) + 1' % prev, 'ENDFUNCTION', 'PROCEDURE Show(v : INTEGER)', '  OUTPUT v', 'ENDPROCEDURE',
+                      'PROCEDURE Report(k : INTEGER)', '  DECLARE t : INTEGER'] + ['  ' + l for l in carrier] + ['  OUTPUT "unreachable?"', 'ENDPROCEDURE', 'Scores[2] <- 7', 'CALL Report(2)', 'OUTPUT "after"']
+                out.append(Case(J(L), limits=dict(steps=20000), meta=dict(gen='errors-below-' + ck, sample=False)))
+    return out
+
+def callers_locals_are_invisible():
+    """static scoping for every kind of definition: a routine defines a local variable, constant, array, enumerated type (whose value names
+    reuse those of a global type), pointer type or record type, and calls a routine that uses the same name -- which must mean the global
+    definition (or be undefined when there is none), before, during and after the nested call"""
+    out = []
+    kinds = {
+        'variable': (['DECLARE X : INTEGER', 'X <- 1'], ['DECLARE X : STRING', 'X <- "local"'], ['OUTPUT X', 'X <- X + 1']),
+        'constant': (['CONSTANT X = 1'], ['CONSTANT X = "local"'], ['OUTPUT X', 'OUTPUT X + 1']),
+        'array': (['DECLARE X : ARRAY[1:3] OF INTEGER', 'X[2] <- 1'], ['DECLARE X : ARRAY[1:2] OF STRING', 'X[2] <- "local"'], ['OUTPUT X[2]', 'X[3] <- X[2] + 1', 'OUTPUT X[3]']),
+        'enum-value': (['TYPE Size = (Small, Mid, Large)'], ['TYPE Level = (Low, Mid, High, Top)'], ['OUTPUT Mid + 1, " ", Mid - 1, " ", Mid + 4', 'DECLARE v : Size', 'v <- Mid', 'OUTPUT v', 'OUTPUT v = Mid']),
+        'enum-type': (['TYPE Size = (Small, Mid, Large)'], ['TYPE Size = (Low, High)'], ['DECLARE v : Size', 'v <- Large', 'OUTPUT v', 'OUTPUT v + 1']),
+        'pointer-type': (['TYPE P = ^INTEGER', 'DECLARE target : INTEGER', 'target <- 4'], ['TYPE P = ^STRING'], ['DECLARE p : P', 'p <- ^target', 'OUTPUT p^']),
+        'record-type': (['TYPE Rec', '  DECLARE n : INTEGER', 'ENDTYPE'], ['TYPE Rec', '  DECLARE s : STRING', '  DECLARE m : REAL', 'ENDTYPE'], ['DECLARE r : Rec', 'r.n <- 3', 'OUTPUT r.n']),
+        'procedure-local-type-only': ([], ['TYPE OnlyLocal = (A1, A2)'], ['OUTPUT A2']),
+        'local-variable-only': ([], ['DECLARE Y : INTEGER', 'Y <- 5'], ['OUTPUT Y']),
+    }
+    for kname, (glob, loc, use) in kinds.items():
+        for with_global in ((True, False) if glob else (False,)):
+            for depth in (1, 2):
+                L = list(glob) if with_global else []
+                L += ['PROCEDURE Callee()'] + ['  ' + l for l in use] + ['ENDPROCEDURE']
+                inner = 'Callee'
+                if depth == 2:
+                    L += ['PROCEDURE Between()', '  OUTPUT "between"', '  CALL Callee()', 'ENDPROCEDURE']; inner = 'Between'
+                L += ['PROCEDURE Caller()'] + ['  ' + l for l in loc] + ['  OUTPUT "caller"', '  CALL %s()' % inner, '  OUTPUT "back"', 'ENDPROCEDURE']
+                L += ['CALL Callee()', 'CALL Caller()', 'CALL Callee()'] if with_global else ['CALL Caller()']
+                out.append(Case(J(L), limits=dict(steps=20000), meta=dict(gen='callers-locals-' + kname, sample=False)))
+    return out
+
+def escaping_pointers():
+    """a global pointer set inside a routine to each kind of variable the routine can name -- a BYREF parameter (bound to a global, to an array
+    element, to a record field, passed on through a second BYREF level), a BYVAL parameter, a local, an element of a local array, a global --
+    and dereferenced for reading and for writing while the routine runs, after it has returned, and after another routine has used the stack"""
+    out = []
+    pre = ['TYPE IntPtr = ^INTEGER', 'TYPE Rec', '  DECLARE n : INTEGER', 'ENDTYPE', 'DECLARE last : IntPtr', 'DECLARE g, h : INTEGER', 'DECLARE arr : ARRAY[1:3] OF INTEGER', 'DECLARE rec : Rec',
+           'g <- 40', 'h <- 10', 'arr[2] <- 20', 'rec.n <- 30',
+           'PROCEDURE Noise()', '  DECLARE filler : ARRAY[1:8] OF INTEGER', '  DECLARE k : INTEGER', '  FOR k <- 1 TO 8', '    filler[k] <- 900 + k', '  NEXT k', 'ENDPROCEDURE']
+    targets = {
+        'byref': (['PROCEDURE Take(BYREF c : INTEGER, BYVAL amount : INTEGER)', '  last <- ^c', '  last^ <- last^ + amount', '  OUTPUT "in ", last^, " ", c', 'ENDPROCEDURE'], 'CALL Take({A}, 2)'),
+        'byref-twice': (['PROCEDURE Inner(BYREF c : INTEGER)', '  last <- ^c', '  last^ <- last^ + 1', 'ENDPROCEDURE', 'PROCEDURE Take(BYREF d : INTEGER, BYVAL amount : INTEGER)', '  CALL Inner(d)', '  OUTPUT "in ", last^, " ", d', 'ENDPROCEDURE'], 'CALL Take({A}, 2)'),
+        'byval': (['PROCEDURE Take(BYVAL c : INTEGER, BYVAL amount : INTEGER)', '  last <- ^c', '  last^ <- last^ + amount', '  OUTPUT "in ", last^, " ", c', 'ENDPROCEDURE'], 'CALL Take({A}, 2)'),
+        'local': (['PROCEDURE Take(BYVAL c : INTEGER, BYVAL amount : INTEGER)', '  DECLARE loc : INTEGER', '  loc <- c', '  last <- ^loc', '  last^ <- last^ + amount', '  OUTPUT "in ", last^, " ", loc', 'ENDPROCEDURE'], 'CALL Take({A}, 2)'),
+        'local-array': (['PROCEDURE Take(BYVAL c : INTEGER, BYVAL amount : INTEGER)', '  DECLARE loc : ARRAY[1:2] OF INTEGER', '  loc[2] <- c', '  last <- ^loc[2]', '  last^ <- last^ + amount', '  OUTPUT "in ", last^, " ", loc[2]', 'ENDPROCEDURE'], 'CALL Take({A}, 2)'),
+        'function-byref': (['FUNCTION Take(BYREF c : INTEGER, BYVAL amount : INTEGER) RETURNS INTEGER', '  last <- ^c', '  last^ <- last^ + amount', '  RETURN last^', 'ENDFUNCTION'], 'OUTPUT Take({A}, 2)'),
+    }
+    for tname, (defs, call) in targets.items():
+        for arg in ('g', 'arr[2]', 'rec.n'):
+            for noise in (False, True):
+                L = pre + defs + [call.replace('{A}', arg), 'OUTPUT "g=", g, " arr=", arr[2], " rec=", rec.n, " h=", h']
+                L += [call.replace('{A}', 'h'), 'OUTPUT "h=", h']
+                if noise:
+                    L.append('CALL Noise()')
+                L += ['OUTPUT "last = ", last^', 'last^ <- 0', 'OUTPUT "g=", g, " arr=", arr[2], " rec=", rec.n, " h=", h']
+                out.append(Case(J(L), limits=dict(steps=20000), meta=dict(gen='escaping-pointer-' + tname, sample=False)))
+                ent = sum(gen.to_entries(L[:-3]), []) + ['last^', 'last^ <- 0', 'g', 'h', 'arr[2]', 'rec.n', 'last^ + 1']
+                if not noise:
+                    out.append(Case(mode='repl', stdin=J(ent), limits=dict(steps=20000), meta=dict(gen='escaping-pointer-repl-' + tname, sample=False)))
+    return out
+
+def byref_argument_resolution():
+    """a BYREF argument is an expression of the CALLER: array elements whose index names, record fields and pointer targets whose names also
+    exist in the callee (as parameter names, declared before or after the BYREF one) or differ between the calling routine's locals and the
+    globals; procedures and functions"""
+    out = []
+    for kind in ('PROCEDURE', 'FUNCTION'):
+        for first in (True, False):          # the clashing parameter before / after the BYREF one
+            for clash in ('i', 'A', 'none'):
+                for where in ('global', 'routine'):
+                    pname = {'i': 'i', 'A': 'A', 'none': 'z'}[clash]
+                    params = ['%s : INTEGER' % pname, 'BYREF slot : INTEGER']
+                    if not first:
+                        params.reverse()
+                    hdr = '%s Replace(%s)' % (kind, ', '.join(params)) + (' RETURNS INTEGER' if kind == 'FUNCTION' else '')
+                    body = ['  DECLARE old : INTEGER', '  old <- slot', '  slot <- %s * 100' % pname, '  OUTPUT "old ", old'] + (['  RETURN old'] if kind == 'FUNCTION' else [])
+                    L = ['DECLARE A : ARRAY[1:8] OF INTEGER', 'DECLARE B : ARRAY[1:8] OF INTEGER', 'DECLARE i, prev, k : INTEGER', 'FOR k <- 1 TO 8', '  A[k] <- k', '  B[k] <- 50 + k', 'NEXT k', 'i <- 2',
+                         hdr] + body + ['END' + kind]
+                    args = ['7', 'A[i]'] if first else ['A[i]', '7']
+                    call = ('prev <- Replace(%s)' if kind == 'FUNCTION' else 'CALL Replace(%s)') % ', '.join(args)
+                    call2 = call.replace('A[i]', 'A[i + 1]')
+                    if where == 'global':
+                        L += [call, call2]
+                    else:
+                        L += ['PROCEDURE Outer()', '  DECLARE A : ARRAY[1:8] OF INTEGER', '  DECLARE i : INTEGER', '  DECLARE prev : INTEGER', '  i <- 5', '  A[5] <- 555', '  A[6] <- 666', '  ' + call, '  ' + call2,
+                              '  OUTPUT "local ", A[5], " ", A[6]', 'ENDPROCEDURE', 'CALL Outer()']
+                    L += ['FOR k <- 1 TO 8', '  OUTPUT A[k], " ", B[k]', 'NEXT k', 'OUTPUT i']
+                    out.append(Case(J(L), limits=dict(steps=20000), meta=dict(gen='byref-argument-resolution', sample=False)))
+    return out
+
+def state_dependent_type_bodies():
+    """record types whose body depends on the state when it runs (an array bound or an initial value taken from a global): variables declared
+    under one state keep their shape when the state changes; whole-record assignment, array-element store, BYVAL, RETURN and file records
+    copy what is there, nested one and two levels deep"""
+    out = []
+    for nest in (0, 1, 2):
+        for lower in (True, False):
+            L = ['DECLARE Capacity : INTEGER', 'Capacity <- 3', 'TYPE Shelf', '  DECLARE count : INTEGER', '  DECLARE slots : ARRAY[1:Capacity] OF INTEGER', 'ENDTYPE']
+            path = ''
+            outer = 'Shelf'
+            if nest >= 1:
+                L += ['TYPE Cabinet', '  DECLARE label : STRING', '  DECLARE top : Shelf', 'ENDTYPE']; outer = 'Cabinet'; path = 'top.'
+            if nest >= 2:
+                L += ['TYPE Room', '  DECLARE cab : Cabinet', '  DECLARE tag : INTEGER', 'ENDTYPE']; outer = 'Room'; path = 'cab.top.'
+            L += ['DECLARE a, b, c, d : %s' % outer, 'DECLARE row : ARRAY[1:2] OF %s' % outer, 'FUNCTION Current() RETURNS %s' % outer, '  RETURN a', 'ENDFUNCTION',
+                  'PROCEDURE Show(BYVAL v : %s)' % outer, '  OUTPUT "byval ", v.%sslots[1], " ", v.%sslots[2], " ", v.%sslots[3]' % (path, path, path), 'ENDPROCEDURE',
+                  'a.%scount <- 3' % path, 'a.%sslots[1] <- 11' % path, 'a.%sslots[2] <- 22' % path, 'a.%sslots[3] <- 33' % path,
+                  'Capacity <- %d' % (2 if lower else 5), 'DECLARE other : %s' % outer, 'other.%sslots[2] <- 5' % path,
+                  'b <- a', 'OUTPUT "assign ", b.%sslots[1], " ", b.%sslots[2], " ", b.%sslots[3]' % (path, path, path),
+                  'row[2] <- a', 'OUTPUT "element ", row[2].%sslots[1], " ", row[2].%sslots[3]' % (path, path),
+                  'c <- Current()', 'OUTPUT "return ", c.%sslots[1], " ", c.%sslots[3]' % (path, path), 'CALL Show(a)',
+                  'OPENFILE "r.dat" FOR RANDOM', 'SEEK "r.dat", 1', 'PUTRECORD "r.dat", a', 'SEEK "r.dat", 1', 'GETRECORD "r.dat", d', 'CLOSEFILE "r.dat"',
+                  'OUTPUT "file ", d.%sslots[1], " ", d.%sslots[3]' % (path, path),
+                  'a.%sslots[3] <- 99' % path, 'b.%sslots[1] <- 7' % path, 'OUTPUT "after ", a.%sslots[3], " ", b.%sslots[3], " ", c.%sslots[3], " ", row[2].%sslots[3]' % (path, path, path, path),
+                  'other <- a', 'OUTPUT "into other ", other.%sslots[1], " ", other.%sslots[2]' % (path, path), 'OUTPUT other.%sslots[3]' % path]
+            out.append(Case(J(L), limits=dict(steps=20000), meta=dict(gen='state-dependent-type-bodies', sample=False)))
+    return out
+
+def loop_counter_rebound():
+    """a FOR loop whose counter name comes to mean something else while the loop runs (a local variable of another type, a constant or an
+    array of that name declared in the body on some pass; global counter, local counter, BYREF counter): the loop goes on counting with the
+    variable it started with, and the new one is left alone"""
+    out = []
+    hides = {'real': ['DECLARE Index : REAL'], 'string': ['DECLARE Index : STRING'], 'constant': ['CONSTANT Index = 100'], 'array': ['DECLARE Index : ARRAY[1:2] OF INTEGER'], 'integer': ['DECLARE Index : INTEGER']}
+    for hname, hide in hides.items():
+        for at in (1, 2):
+            for counter in ('global', 'byref'):
+                L = ['DECLARE Index : INTEGER', 'DECLARE Pass : INTEGER', 'Pass <- 0', 'DECLARE Other : INTEGER',
+                     'PROCEDURE Tally(%s)' % ('BYREF Index : INTEGER' if counter == 'byref' else 'BYVAL unused : INTEGER'),
+                     '  FOR Index <- 1 TO 3', '    Pass <- Pass + 1', '    IF Pass = %d THEN' % at] + ['      ' + h for h in hide] + ['    ENDIF']
+                L += (['    OUTPUT "pass ", Pass'] if hname == 'array' else ['    OUTPUT "pass ", Pass, " Index = ", Index']) + ['  NEXT Index'] + ([] if hname == 'array' else ['  OUTPUT "after the loop ", Index']) + ['ENDPROCEDURE']
+                L += ['CALL Tally(%s)' % ('Other' if counter == 'byref' else '0'), 'OUTPUT "passes = ", Pass', 'OUTPUT "global Index = ", Index, " Other = ", Other']
+                out.append(Case(J(L), limits=dict(steps=20000), meta=dict(gen='loop-counter-rebound', sample=False)))
+    return out
+
+def date_literal_positions():
+    """a date literal after every kind of token (each operator, '(', ',', '<-', a keyword, the start of a line), valid and invalid dates,
+    with and without blanks: one REPL session of probes and the same as single-statement programs"""
+    pre = ['x <- 6', 'DECLARE d : DATE', 'd <- 2/3/2004']
+    probes = []
+    for date in ('1/2/2003', '31/2/2021', '29/2/2020', '1/13/2020'):
+        probes += ['%s' % date, 'x/%s' % date, 'x / %s' % date, 'x /%s' % date, '12/%s' % date, 'x - %s' % date, 'x-%s' % date, 'x * %s' % date, 'd = %s' % date, 'd=%s' % date, 'd < %s' % date, 'd<>%s' % date,
+                   '(%s)' % date, 'DAY(%s)' % date, 'DAYINDEX( %s )' % date, 'SETDATE(1,%s, 3)' % date.split('/')[0], 'd <- %s' % date, 'd', 'OUTPUT %s' % date, 'OUTPUT x,%s' % date, '"s" & %s' % date,
+                   '%s = %s' % (date, date), '%s/%s' % (date, date), '%s /2' % date, 'NOT %s' % date, 'x/1/%s' % date[2:]]
+    out = [Case(mode='repl', stdin=J(pre + probes), limits=dict(steps=60000), meta=dict(gen='date-literal-positions', sample=False))]
+    for p in probes[::3]:
+        stmt = p if (p.startswith(('d <-', 'OUTPUT')) ) else 'OUTPUT ' + p
+        out.append(Case(J(pre + [stmt, 'OUTPUT "after"']), limits=dict(steps=5000), meta=dict(gen='date-literal-positions-file', sample=False)))
+    return out
+
+def alias_used_after_value_replaced():
+    """a STRING or INTEGER reached through an alias (BYREF parameter, BYREF passed on, pointer target) whose value object is replaced by a
+    statement that stores a new value (READFILE, INPUT, GETRECORD, assignment) and is then used through the same alias in every reading
+    position: OUTPUT, PUTRECORD, WRITEFILE, built-in and user calls BYVAL and BYREF, comparison, copy; the files are read back afterwards"""
+    out = []
+    files = {'in.txt': b'alpha\nbeta\ngamma\n', 'seed.dat': b'STRING 6 record\nSTRING 3 two\n', 'seedn.dat': b'INTEGER 41\nINTEGER 42\n'}
+    pre = ['DECLARE buf, other : STRING', 'DECLARE num, onum : INTEGER', 'buf <- "start"', 'num <- 1', 'OPENFILE "in.txt" FOR READ', 'OPENFILE "seed.dat" FOR RANDOM', 'OPENFILE "seedn.dat" FOR RANDOM',
+           'OPENFILE "out.dat" FOR RANDOM', 'OPENFILE "log.txt" FOR WRITE',
+           'PROCEDURE Show(BYVAL v : STRING)', '  OUTPUT "show ", v', 'ENDPROCEDURE', 'PROCEDURE Touch(BYREF v : STRING)', '  v <- v & "!"', 'ENDPROCEDURE',
+           'PROCEDURE ShowN(BYVAL v : INTEGER)', '  OUTPUT "show ", v', 'ENDPROCEDURE', 'PROCEDURE TouchN(BYREF v : INTEGER)', '  v <- v + 100', 'ENDPROCEDURE']
+    srepl = ['READFILE "in.txt", {A}', 'INPUT {A}', 'GETRECORD "seed.dat", {A}', '{A} <- {A} & "+"', '{A} <- "fresh"']
+    nrepl = ['INPUT {A}', 'GETRECORD "seedn.dat", {A}', '{A} <- {A} + 1']
+    suses = ['OUTPUT {A}', 'SEEK "out.dat", 1', 'PUTRECORD "out.dat", {A}', 'WRITEFILE "log.txt", {A}', 'OUTPUT LENGTH({A})', 'CALL Show({A})', 'CALL Touch({A})', 'OUTPUT {A} = buf', 'other <- {A}', 'OUTPUT other',
+             'SEEK "out.dat", 2', 'PUTRECORD "out.dat", {A}', 'OUTPUT {A} & "|"']
+    nuses = ['OUTPUT {A}', 'SEEK "out.dat", 1', 'PUTRECORD "out.dat", {A}', 'WRITEFILE "log.txt", {A}', 'OUTPUT {A} + 1', 'CALL ShowN({A})', 'CALL TouchN({A})', 'OUTPUT {A} = num', 'onum <- {A}', 'OUTPUT onum',
+             'SEEK "out.dat", 2', 'PUTRECORD "out.dat", {A}']
+    tail = ['CLOSEFILE "out.dat"', 'CLOSEFILE "log.txt"', 'OPENFILE "out.dat" FOR RANDOM', 'SEEK "out.dat", 1', 'GETRECORD "out.dat", {V}', 'OUTPUT "record 1 ", {V}', 'SEEK "out.dat", 2', 'GETRECORD "out.dat", {V}',
+            'OUTPUT "record 2 ", {V}', 'OPENFILE "log.txt" FOR READ', 'READFILE "log.txt", other', 'OUTPUT "log ", other']
+    for ty, var, repls, uses in (('STRING', 'buf', srepl, suses), ('INTEGER', 'num', nrepl, nuses)):
+        for rp in repls:
+            for twice in (False, True):
+                for alias in ('byref', 'byref-twice', 'pointer', 'function-byref'):
+                    body = [rp] + uses + ([rp] + uses[:4] if twice else [])
+                    if alias == 'pointer':
+                        L = pre + ['TYPE Ptr = ^%s' % ty, 'DECLARE p : Ptr', 'p <- ^%s' % var] + [l.replace('{A}', 'p^') for l in body]
+                    elif alias == 'byref':
+                        L = pre + ['PROCEDURE Work(BYREF p : %s)' % ty] + ['  ' + l.replace('{A}', 'p') for l in body] + ['ENDPROCEDURE', 'CALL Work(%s)' % var]
+                    elif alias == 'function-byref':
+                        L = pre + ['FUNCTION Work(BYREF p : %s) RETURNS INTEGER' % ty] + ['  ' + l.replace('{A}', 'p') for l in body] + ['  RETURN 0', 'ENDFUNCTION', 'OUTPUT Work(%s)' % var]
+                    else:
+                        L = pre + ['PROCEDURE Work(BYREF p : %s)' % ty] + ['  ' + l.replace('{A}', 'p') for l in body] + ['ENDPROCEDURE',
+                                   'PROCEDURE Outer(BYREF q : %s)' % ty, '  CALL Work(q)', '  OUTPUT "outer ", q', 'ENDPROCEDURE', 'CALL Outer(%s)' % var]
+                    L += ['OUTPUT "variable ", %s' % var] + [l.replace('{V}', var) for l in tail]
+                    out.append(Case(J(L), stdin=b'7\n8\n9\n', files=dict(files), limits=dict(steps=20000), meta=dict(gen='alias-after-replace-' + alias, sample=False)))
+    return out
+
 def extra(pid, tier, rng):
     """the families each property's check runs in addition to its own generators"""
     if pid == 'C01':
         c = alias_then_replace() + shadowed_types() + deref_node_reuse() + far_seek() + far_dates_output() + far_dates_files()[0] + pedantic_tail_with_files() \
             + array_cross_types() + redeclared_bounds(rng) + scope_change_in_activation(rng) + empty_comment_faults()[:40] + call_type_matrix()
         c += nodes_evaluated_twice(rng) + identifier_targets_by_binding() + lexer_failure_then_probe(rng) + side_effects_in_subexpressions() + array_scope_matrix()[::3] + scalar_and_array_share_a_name() + pointer_to_implicit_record() + failing_record_creation() + runfile_with_handles() + declaredness_changes_per_activation()[::2] + records_with_array_fields_in_files()
+        c += reentrant_nodes() + creation_fails_then_probe() + escaping_pointers() + callers_locals_are_invisible()[::2] + byref_argument_resolution() + state_dependent_type_bodies() + loop_counter_rebound() + errors_below_statements()[::7]
+        c += alias_used_after_value_replaced()[::2]
         c += rng.sample(retyped_sites(rng, n_orders=1), 40) + rng.sample(nested_undeclared(rng), 20) + undeclared_field_vs_names()[::3]
         return c
-    if pid == 'C02': return nodes_evaluated_twice(rng) + lexer_failure_then_probe(rng) + concat_matrix() + retyped_sites(rng, ['plus', 'minus', 'div', 'concat', 'less', 'not', 'and', 'length', 'mid'])
-    if pid == 'C03': return [c for c in identifier_targets_by_binding() if '-for-' in c.meta['gen']] + retyped_sites(rng, ['while', 'repeat', 'if', 'case', 'for', 'forstep', 'not']) + shadowed_condition(rng)
-    if pid == 'C04': return identifier_targets_by_binding() + array_scope_matrix() + side_effects_in_subexpressions() + call_type_matrix() + scope_change_in_activation(rng) + nested_undeclared(rng) + alias_then_replace()
-    if pid == 'C05': return [c for c in identifier_targets_by_binding() if 'input' in c.meta['gen'] or 'assign' in c.meta['gen']] + call_type_matrix() + array_cross_types() + retyped_sites(rng, ['store', 'byval', 'fn', 'index']) + shadowed_types()
-    if pid == 'C06': return array_scope_matrix() + side_effects_in_subexpressions() + redeclared_bounds(rng) + retyped_sites(rng, ['index']) + array_cross_types()
-    if pid == 'C07': return shadowed_types() + alias_then_replace() + undeclared_field_vs_names() + side_effects_in_subexpressions()
-    if pid == 'C08': return scope_change_in_activation(rng) + scalar_and_array_share_a_name()
-    if pid == 'C09': return deref_node_reuse() + alias_then_replace() + pointer_to_implicit_record()
+    if pid == 'C02': return nodes_evaluated_twice(rng) + lexer_failure_then_probe(rng) + concat_matrix() + retyped_sites(rng, ['plus', 'minus', 'div', 'concat', 'less', 'not', 'and', 'length', 'mid']) + reentrant_nodes()
+    if pid == 'C03': return [c for c in identifier_targets_by_binding() if '-for-' in c.meta['gen']] + retyped_sites(rng, ['while', 'repeat', 'if', 'case', 'for', 'forstep', 'not']) + shadowed_condition(rng) + reentrant_nodes() + loop_counter_rebound()
+    if pid == 'C04': return identifier_targets_by_binding() + array_scope_matrix() + side_effects_in_subexpressions() + call_type_matrix() + scope_change_in_activation(rng) + nested_undeclared(rng) + alias_then_replace() + reentrant_nodes() + callers_locals_are_invisible() + byref_argument_resolution()
+    if pid == 'C05': return [c for c in identifier_targets_by_binding() if 'input' in c.meta['gen'] or 'assign' in c.meta['gen']] + call_type_matrix() + array_cross_types() + retyped_sites(rng, ['store', 'byval', 'fn', 'index']) + shadowed_types() + loop_counter_rebound() + creation_fails_then_probe()
+    if pid == 'C06': return array_scope_matrix() + side_effects_in_subexpressions() + redeclared_bounds(rng) + retyped_sites(rng, ['index']) + array_cross_types() + byref_argument_resolution() + state_dependent_type_bodies()
+    if pid == 'C07': return shadowed_types() + alias_then_replace() + undeclared_field_vs_names() + side_effects_in_subexpressions() + state_dependent_type_bodies()
+    if pid == 'C08': return scope_change_in_activation(rng) + scalar_and_array_share_a_name() + loop_counter_rebound()
+    if pid == 'C09': return deref_node_reuse() + alias_then_replace() + pointer_to_implicit_record() + escaping_pointers() + alias_used_after_value_replaced()
     if pid == 'C10':
         c = far_lines() + far_lines(runtime=True)
         for x in c: x.meta['relevant'] = ('stdout', 'exit', 'diags')
         return c
-    if pid == 'C11': return far_lines() + far_lines(runtime=True) + empty_comment_faults() + failing_record_creation()
-    if pid == 'C12': return lexer_failure_then_probe(rng) + failing_record_creation() + runfile_with_handles()
-    if pid == 'C13': return [c for c in identifier_targets_by_binding() if 'getrecord' in c.meta['gen']] + far_dates_files()[0] + records_with_array_fields_in_files() + scalar_and_array_share_a_name()
-    if pid == 'C14': return far_seek() + records_with_array_fields_in_files()
-    if pid == 'C15': return far_dates_files()[0] + far_dates_output() + [c for c in identifier_targets_by_binding() if 'readfile' in c.meta['gen']]
+    if pid == 'C11': return far_lines() + far_lines(runtime=True) + empty_comment_faults() + failing_record_creation() + errors_below_statements()
+    if pid == 'C12': return lexer_failure_then_probe(rng) + failing_record_creation() + runfile_with_handles() + creation_fails_then_probe()
+    if pid == 'C13': return [c for c in identifier_targets_by_binding() if 'getrecord' in c.meta['gen']] + far_dates_files()[0] + records_with_array_fields_in_files() + scalar_and_array_share_a_name() + alias_used_after_value_replaced()
+    if pid == 'C14': return far_seek() + records_with_array_fields_in_files() + alias_used_after_value_replaced()
+    if pid == 'C15': return far_dates_files()[0] + far_dates_output() + [c for c in identifier_targets_by_binding() if 'readfile' in c.meta['gen']] + runfile_with_handles() + alias_used_after_value_replaced()
     if pid == 'C16': return pedantic_tail_with_files() + side_effects_in_subexpressions() + runfile_with_handles()
-    if pid == 'C17': return lexer_failure_then_probe(rng) + nodes_evaluated_twice(rng)
-    if pid == 'C18': return far_dates_output() + nodes_evaluated_twice(rng)
-    if pid == 'C19': return array_cross_types() + shadowed_types() + nodes_evaluated_twice(rng)
-    if pid == 'C20': return nested_undeclared(rng) + shadowed_condition(rng) + pedantic_tail_with_files() + declaredness_changes_per_activation()
+    if pid == 'C17': return lexer_failure_then_probe(rng) + nodes_evaluated_twice(rng) + reentrant_nodes()
+    if pid == 'C18': return far_dates_output() + nodes_evaluated_twice(rng) + date_literal_positions() + lexer_failure_then_probe(rng)
+    if pid == 'C19': return array_cross_types() + shadowed_types() + nodes_evaluated_twice(rng) + callers_locals_are_invisible()
+    if pid == 'C20': return nested_undeclared(rng) + shadowed_condition(rng) + pedantic_tail_with_files() + declaredness_changes_per_activation() + creation_fails_then_probe()
     return []
